@@ -522,3 +522,40 @@ def run_S_header(rep, g, pairs=(('read::lists::ListsHeader::size_for_encoding', 
                   why='bag equality of the size model and the parser')
     rep.floor('S-header', 'header size models', n, 1)
     return n
+
+
+def _leb_loop_signature(fn):
+    """(number of loops, shift amounts applied to an integer inside the loop, constants it is compared with, per-iteration increments)"""
+    from .term import natural_loops
+    loops = natural_loops(fn)
+    shifts, cmps, incs = [], [], []
+    for h, body in loops.items():
+        for b in sorted(body):
+            for st in fn.stmts(b):
+                if st[0] != 'a' or st[2][0] != 'bin':
+                    continue
+                op, a, c = st[2][1], st[2][2], st[2][3]
+                kc = c[2].get('v') if c[0] == 'k' and isinstance(c[2], dict) else None
+                if op in ('Shr', 'ShrUnchecked') and isinstance(kc, int):
+                    shifts.append(kc)
+                elif op in ('Eq', 'Ne') and isinstance(kc, int) and not isinstance(kc, bool) and fn.ty(a[1][0]) in ('u64', 'i64') if a[0] in ('c', 'm') and len(a[1]) == 1 else False:
+                    cmps.append(kc)
+                elif op in ('Add', 'AddWithOverflow') and isinstance(kc, int):
+                    incs.append(kc)
+    return len(loops), sorted(shifts), sorted(set(cmps)), sorted(set(incs))
+
+
+def run_X_leb(rep, g):
+    """X-leb: the LEB128 size helpers walk the value exactly like the encoders they predict (same shift amounts per iteration, same
+    termination constants, one byte counted per iteration)."""
+    rep.rule('X-leb', 'sibling agreement: uleb128_size/sleb128_size and Leb128::unsigned/signed each consist of one loop that shifts the value by the '
+             'same amounts per iteration, stops on the same constants and advances its byte count by one per iteration')
+    pairs = [('leb128::write::uleb128_size', 'leb128::write::Leb128::unsigned'), ('leb128::write::sleb128_size', 'leb128::write::Leb128::signed')]
+    for size_p, enc_p in pairs:
+        sf, ef = g.fn(size_p), g.fn(enc_p)
+        ss, es = _leb_loop_signature(sf), _leb_loop_signature(ef)
+        okc = ss[0] == 1 and es[0] == 1 and ss[1] == es[1] and ss[2] == es[2] and 1 in ss[3] and 1 in es[3]
+        rep.check('X-leb', '%s~%s' % (size_p.split('::')[-1], enc_p.split('::')[-1]), okc,
+                  'size helper: loops %d, shifts %s, stop constants %s, increments %s; encoder: loops %d, shifts %s, stop constants %s, increments %s' % (ss + es),
+                  sf.loc(), why='same loop skeleton')
+    return 2
